@@ -70,6 +70,48 @@ impl Outcome {
     }
 }
 
+/// Confirmation of failures that rest on elapsed time (a latency bound, a watchdog, a timeout configured in pgcat that fired).
+/// One such observation can be the environment's doing - the harness thread or one of pgcat's threads not scheduled for a few
+/// hundred milliseconds - so it counts only when the same case, executed again from scratch `extra_runs` times, fails again
+/// every time (DESIGN.md section 3 "Stalls", section 7). A fault that really makes pgcat wait is there in every execution
+/// (the generated faults last the whole case). Failures with any other signature (byte-level oracles) are returned as they are,
+/// also when they only show up in a re-execution. A signal that does not reproduce makes the case inconclusive: it is counted and
+/// sampled in the evidence, and more than 25 % inconclusive cases is a harness error.
+pub fn confirm_timed<F: FnMut() -> Outcome>(first: Outcome, timed_sigs: &[&str], extra_runs: u32, mut rerun: F) -> Outcome {
+    let is_timed = |o: &Outcome| o.violation.as_ref().map(|v| timed_sigs.contains(&v.sig.as_str())).unwrap_or(false);
+    if !is_timed(&first) {
+        return first;
+    }
+    let mut first = first;
+    for i in 0..extra_runs {
+        let again = rerun();
+        if again.violation.is_some() && !is_timed(&again) {
+            return again;
+        }
+        if again.violation.is_none() {
+            let v = first.violation.take().unwrap();
+            let mut short: String = v.detail.chars().take(1200).collect();
+            if short.len() < v.detail.len() {
+                short.push('…');
+            }
+            first.label("timed-signal-not-reproduced");
+            first.inconclusive = Some(format!(
+                "time-derived signal `{}` of execution 1 did not show in execution {} of the same case{}: {}",
+                v.sig,
+                i + 2,
+                again.inconclusive.as_ref().map(|w| format!(" (which was itself inconclusive: {})", w)).unwrap_or_default(),
+                short
+            ));
+            return first;
+        }
+    }
+    first.label("timed-signal-confirmed");
+    if let Some(v) = first.violation.as_mut() {
+        v.detail = format!("[reproduced in {} of {} executions of the case] {}", extra_runs + 1, extra_runs + 1, v.detail);
+    }
+    first
+}
+
 pub struct WorkerCtx {
     pub worker: usize,
     pub ports: PortAlloc,
@@ -77,6 +119,9 @@ pub struct WorkerCtx {
     pub tier: Tier,
     pub rt: Option<tokio::runtime::Runtime>,
     pub case_no: u64,
+    /// set by the engine while it shrinks a failing case: checks that confirm time-derived failures by re-execution decide each
+    /// shrink candidate on one execution (the original and the final case are confirmed in full)
+    pub shrinking: bool,
 }
 
 impl WorkerCtx {
@@ -88,7 +133,7 @@ impl WorkerCtx {
         } else {
             None
         };
-        WorkerCtx { worker, ports: PortAlloc::new(worker), dir, tier, rt, case_no: 0 }
+        WorkerCtx { worker, ports: PortAlloc::new(worker), dir, tier, rt, case_no: 0, shrinking: false }
     }
 }
 
@@ -337,6 +382,11 @@ pub fn run_part<P: Part>(p: &P, tier: Tier, seed: u64) -> PartReport {
                     };
                     let case = tree.current();
                     ctx.case_no += 1;
+                    // debugging aid: PGVERIF_CASE_DIR=<dir> keeps every generated case as <dir>/<part>-w<worker>-<n>.json
+                    if let Ok(d) = std::env::var("PGVERIF_CASE_DIR") {
+                        let _ = std::fs::create_dir_all(&d);
+                        let _ = std::fs::write(format!("{}/{}-w{}-{}.json", d, p.name(), w, ctx.case_no), serde_json::to_string(&case).unwrap_or_default());
+                    }
                     let o = p.run(&case, &mut ctx);
                     done.fetch_add(1, Ordering::Relaxed);
                     let mut unknown: Option<crate::engine::Violation> = None;
@@ -382,6 +432,7 @@ pub fn run_part<P: Part>(p: &P, tier: Tier, seed: u64) -> PartReport {
                         let mut best_detail = v.detail.clone();
                         let mut iters = 0u32;
                         let max = p.max_shrink();
+                        ctx.shrinking = true;
                         'shrink: loop {
                             if !tree.simplify() {
                                 break;
@@ -400,6 +451,18 @@ pub fn run_part<P: Part>(p: &P, tier: Tier, seed: u64) -> PartReport {
                                     break;
                                 } else if !tree.complicate() {
                                     break 'shrink;
+                                }
+                            }
+                        }
+                        ctx.shrinking = false;
+                        if iters > 0 {
+                            // the minimal case must fail by itself with every confirmation the check applies, else the case as generated is kept
+                            let o3 = p.run(&best, &mut ctx);
+                            match o3.violation {
+                                Some(x) if x.sig == v.sig => best_detail = x.detail,
+                                _ => {
+                                    best = case.clone();
+                                    best_detail = v.detail.clone();
                                 }
                             }
                         }
